@@ -460,6 +460,7 @@ def check_C16(ctx, rep):
             flag = num(a[5])
             ok = su is not None and su == sb and flag is not None and ((su == 2) == bool(flag))
             rep.ob('C16.R4', pq, 'earliest-side-args:%s' % ('client' if flag else 'server'), ok, 'until of param %s, bypassable of param %s, is_client %s' % (su, sb, flag))
+    check_is_event_table(ctx, rep, 'C16.R4')
     rep.rule('C16.R5', 'bypass classification: queue::peek_blocking treats the bypassable heap as blocked exactly when the active blocking is not '
              'bypassable, queue::peek_non_blocking treats it as free exactly when it is; peek_queue_earliest_side passes the side\'s own flag')
     check_bypass_classification(ctx, rep, 'C16.R5')
@@ -1073,6 +1074,10 @@ def check_C19(ctx, rep):
             ok, w = all_paths(ppf.at_entry(b), lambda S: any(f2[0] == 'called' for f2 in S) or any(f2[0] == 'stored' and f2[3][0] == 'agg' and f2[3][2] == 'None' for f2 in S))
             rep.ob('C19.R4', pn, 'self-call-after-consuming-step', ok and bool(ppf.at_entry(b)), '' if ok else show_facts(w))
     rep.count_floor('C19.R4', 'self-calls of pick_next', n_self, 3)
+    rep.rule('C19.R5', 'argument plumbing: the client state is built from the client machines/fractions/integration and the server state from the '
+             'server ones; SimState::new forwards machines, fractions and start time to Framework::new in order; each event is handed to the '
+             'framework of its own side')
+    check_sim_args_passthrough(ctx, rep, 'C19.R5')
     rep.assumptions += ['the five BUG: assertions and monotone time are NOT decided (they depend on queue contents)',
                         'exact sub-sequence equality under max_trace_length is NOT decided', 'integration delays are excluded by the property',
                         'Network pps = Some(0) is not a valid argument']
@@ -1231,3 +1236,63 @@ def check_bypass_classification(ctx, rep, rid):
         for (b, f, a, t) in calls(ca):
             if callee_str(f).endswith(callee):
                 rep.ob(rid, c, 'passes-side-flag-to:' + callee.split('::')[-1], pidx is not None and a[1] == ('param', pidx), '%s(%s)' % (callee, ', '.join(show(x)[:25] for x in a)))
+
+
+def check_is_event_table(ctx, rep, rid):
+    """TriggerEvent::is_event(e) compares with the same-named Event for every variant"""
+    prog, an = ctx.prog, ctx.an
+    fn = prog.fn('maybenot', 'TriggerEvent', 'is_event')
+    fa = an.get(fn)
+    pf = an.paths(fn, history=True)
+    tvars = prog.variants('maybenot::event::TriggerEvent')
+    seen = set()
+    for (b, k, v) in ret_defs(fa):
+        for S in pf.at(b, k):
+            var = [f[2] for f in S if f[0] == 'variant' and f[2] in tvars]
+            nots = [x for f in S if f[0] == 'notvariant' for x in f[2]]
+            names = var[:1] if var else [x for x in tvars if x not in nots]
+            for n in names:
+                seen.add(n)
+                ok = (is_call(v, 'PartialEq>::eq') or is_call(v, 'PartialEq::eq')) and any(isinstance(x, tuple) and x and x[0] == 'agg' and x[1].endswith('event::Event') and x[2] == n for x in walk(v)) and \
+                    contains(v, lambda x: x in (('param', 2), ('local', 2)))
+                rep.ob(rid, fn, 'is_event:' + n, ok, 'TriggerEvent::%s -> %s' % (n, shape(v)))
+    for n in tvars:
+        rep.ob(rid, fn, 'is_event-covers:' + n, n in seen, '')
+
+
+def check_sim_args_passthrough(ctx, rep, rid):
+    """sim_advanced builds the client/server states from the matching arguments; SimState::new forwards them to Framework::new in order"""
+    prog, an = ctx.prog, ctx.an
+    sa = sim_fn(prog, 'sim_advanced')
+    saa = an.get(sa)
+    sn = prog.fn(SIM, 'SimState', 'new')
+    sna = an.get(sn)
+    for (b, f, a, t) in calls(sna):
+        if callee_str(f).endswith('Framework::<M, R, T>::new'):
+            ok = a[0] == ('param', 1) and a[1] == ('param', 3) and a[2] == ('param', 4) and a[3] == ('param', 2)
+            rep.ob(rid, sn, 'forwards-machines-fractions-time', ok, 'Framework::new(%s)' % ', '.join(show(x)[:20] for x in a[:4]))
+    sides = []
+    for (b, f, a, t) in calls(saa):
+        if callee_key(f) == sn.key:
+            m = a[0]
+            side = 'client' if m == ('param', 1) else ('server' if m == ('param', 2) else '?')
+            sides.append(side)
+            okp = is_field(a[2], 'max_padding_frac_' + side, 'SimulatorArgs')
+            okb = is_field(a[3], 'max_blocking_frac_' + side, 'SimulatorArgs')
+            oki = contains(a[4], lambda x: isinstance(x, tuple) and x and x[0] == 'fld' and x[3] == side + '_integration')
+            rep.ob(rid, sa, '%s-state-gets-%s-arguments' % (side, side), okp and okb and oki, 'SimState::new(%s, _, %s, %s, %s, ..)' % (show(m), show(a[2])[-28:], show(a[3])[-29:], show(a[4])[-30:]))
+    rep.ob(rid, sa, 'both-sides-built', sorted(sides) == ['client', 'server'], '%s' % sides)
+    # trigger_update is called with the state of the event's side: the call lies behind the matching edge of a branch on next.client
+    for (b, f, a, t) in calls(saa):
+        cs = callee_str(f)
+        if cs.endswith('trigger_update'):
+            flag = num(a[4])
+            rep.ob(rid, sa, 'trigger_update-side-flag:%s' % flag, flag is not None, '')
+            okp = False
+            for (sb, e) in switch_conditions(saa):
+                if is_field(e, 'client', 'SimEvent'):
+                    for (y, lab) in saa.cfg.succ[sb]:
+                        pol = (lab[1] != '0') if lab[0] == 'sw' else ('0' in lab[1])
+                        if pol is bool(flag) and saa.cfg.dominates(y, b) and [p for (p, l) in saa.cfg.pred[y]] == [sb]:
+                            okp = True
+            rep.ob(rid, sa, 'trigger_update-for-events-own-side:%s' % ('client' if flag else 'server'), okp, '')
